@@ -106,9 +106,11 @@ def render(h: dict[str, Any]) -> str:
                 fargs.append("init=False")
             if not f["compare"]:
                 fargs.append("compare=False")
+            if f.get("hash_false"):
+                fargs.append("hash=False")
             if f.get("kw_only"):
                 fargs.append("kw_only=True")
-            simple = f.get("default") is not None and f["init"] and f["compare"] and not f.get("kw_only")
+            simple = f.get("default") is not None and f["init"] and f["compare"] and not f.get("kw_only") and not f.get("hash_false")
             if simple and not f.get("force_field"):
                 out.append(f"    {f['name']}: {ann} = {f['default']}")
             elif fargs:
@@ -686,6 +688,8 @@ class Gen:
                 f["default"] = r.choice(PROP_KINDS[kind][1])
             if r.random() < 0.15 and not kw_only_cls and f["default"] is not None:
                 f["kw_only"] = True
+            if f["compare"] and r.random() < 0.1:
+                f["hash_false"] = True  # kept out of __hash__ by declaration, still a comparable property
             return f
         kind = r.choice([k for k in CHILD_KINDS if k != "late" or self.late])
         if name.startswith("_"):
@@ -694,6 +698,11 @@ class Gen:
         if kind == "late":
             f["quoted"] = True
             f["default"] = "None"
+            return f
+        if kind in ("opt", "tuple") and r.random() < 0.12:
+            # a child field the constructor does not take (filled by the class itself, here: left at its default)
+            f["init"] = False
+            f["default"] = {"opt": "None", "tuple": "()"}[kind]
             return f
         if not kw_only_cls or r.random() < 0.4:
             f["default"] = {"child": 'GLeaf("d")', "opt": "None", "union": "GOther(1)", "tuple": "()", "fixed": '(GLeaf("p"), GOther(2))'}[kind]
